@@ -432,6 +432,9 @@ func runC06(c *Ctx) {
 	// receipts on every accepting path of the validator: decided by C01's commitment rule, shared here because the
 	// clause "cumulative gas equals the sum over the receipts" belongs to this property too
 	c.Borrow("C01", runC01, map[string]string{"C01-R2": "C06-R5"})
+	// "if execution fails, no other state change, log or created code survives": the snapshot/revert discipline of the
+	// five call/create entry points is C07-R1, shared here
+	c.Borrow("C07", runC07, map[string]string{"C07-R1": "C06-R7"})
 
 	c.Rule("C06-R6", "the refund counter starts at zero in every transaction: the per-transaction boundary resets it on every path", func() {
 		// refundGas caps the refund by the counter accumulated in StateDB; the counter is reset by Finalise, which
